@@ -173,7 +173,7 @@ def _shift(db, chk):
     s = runs[0].env["self"]
     mt = to_term(s.attrs.get("min_ts"))
     m0, m1 = T.agg("min", T.col(T0, "ts"), (T0, T.TRUE, None)), T.agg("min", T.col(T1, "ts"), (T1, T.TRUE, None))
-    acc = [("reduce", "min", ("list", (m0, m1))), ("reduce", "min", ("list", (m1, m0))), ("clip_hi", m0, m1), ("clip_hi", m1, m0)]
+    acc = [("reduce", "min", ("list", (m0, m1))), ("reduce", "min", ("list", (m1, m0))), T.min2(m0, m1)]
     check_term(chk, "C01.R4-uniform-shift", "shift = minimum over ALL ranks of the per-rank earliest ts, stored as min_ts", where, mt, acc,
                "the first rank's minimum leaves another rank with negative start times; per-rank minima destroy cross-rank alignment")
     for rk, base in ((R0, T0), (R1, T1)):
